@@ -41,18 +41,19 @@ Section Views.
 
   Definition zsum (l : list Z) : Z := fold_right Z.add 0 l.
   Lemma zsum_app a b : zsum (a ++ b) = zsum a + zsum b.
-  Proof. induction a as [|x a IH]; cbn; [reflexivity|]. unfold zsum in IH. rewrite IH. lia. Qed.
+  Proof. unfold zsum. induction a as [|x a IH]; cbn [app fold_right]; [lia|]. rewrite IH. lia. Qed.
 
   Lemma lv_len_node o ls (k : level) ks :
     lv_len (Node o ls (k :: ks)) = zsum (map lv_len (k :: ks)).
   Proof.
-    cbn [lv_len]. generalize (k :: ks). intro l. induction l as [|x l IH]; [reflexivity|].
+    cbn [lv_len map zsum fold_right]. f_equal.
+    induction ks as [|x l IH]; [reflexivity|].
     cbn [map zsum fold_right]. rewrite IH. reflexivity.
   Qed.
 
   Lemma uniform_leaf h o (ls : list A) : uniform h (Leaf o ls) = true -> h = O /\ ls <> [].
   Proof.
-    cbn. intro H. apply andb_true_iff in H as [H1 H2]. apply Nat.eqb_eq in H1.
+    intro H. cbn [uniform] in H. apply andb_true_iff in H as [H1 H2]. apply Nat.eqb_eq in H1.
     split; [exact H1|]. destruct ls; [discriminate|discriminate].
   Qed.
 
